@@ -37,6 +37,7 @@ NPROC = int(os.environ.get("VERIF_JOBS", "0")) or min(16, os.cpu_count() or 4)
 
 _counter = [0]
 _pool = None
+_SLOW = []
 
 
 def pool():
@@ -95,6 +96,7 @@ def run_world(scn, widx, verbose=False):
         cmd.append(e["opt"])
     cmd += ["-X", "faulthandler", WORLD]
     req = json.dumps({"scenario": scn, "world": widx, "verbose": verbose})
+    t_start = time.time()
     try:
         p = subprocess.run(cmd, input=req.encode(), stdout=subprocess.PIPE, stderr=subprocess.PIPE, env=env, timeout=WORLD_TIMEOUT, cwd=scratch)
     except subprocess.TimeoutExpired as ex:
@@ -109,6 +111,8 @@ def run_world(scn, widx, verbose=False):
                 "stderr": p.stderr[-3000:].decode("utf-8", "replace")}
     if p.returncode != 0:
         out = {"ok": False, "harness_error": f"world exited {p.returncode}", "stderr": p.stderr[-3000:].decode("utf-8", "replace")}
+    if os.environ.get("VERIF_DEBUG"):
+        _SLOW.append((round(time.time() - t_start, 1), scn.get("seed"), widx, [o[0] + (":" + o[3].get("scope", "") + ":" + o[3].get("policy", "") if o[0] == "par_scan" else "") for o in w.get("ops", [])][:14]))
     return out
 
 
@@ -604,6 +608,8 @@ def run_check(prop, tier, master, only_index=None):
     known_lines = []
     seen_sigs = set()
     dbg("batch done", evaluations, "failing", len(failing))
+    for rec in sorted(_SLOW, key=lambda r: -r[0])[:12]:
+        dbg("slow world", rec)
     groups = {}
     for i, scn, viols in failing[: (4 if tier == "quick" else 12)]:
         for clause in clause_set(viols):
